@@ -1,4 +1,5 @@
 import ChipFiring.Properties.C01
+import ChipFiring.Theory.GoodOf
 import ChipFiring.Theory.Moves
 /-
   C07 — linear_equivalence decides membership of D1 − D2 in the Laplacian lattice.
@@ -130,5 +131,11 @@ example : ∃ G : Graph 4, Graph.new 4 false [(0, 1, 1), (1, 2, 1), (2, 3, 1), (
     linEquiv G 1000 true (Divisor.ofFn fun v => [1, 0, 0, -1].getD v.1 0) (Divisor.ofFn fun v => [-1, 1, 0, 0].getD v.1 0) = some true ∧
     linEquiv G 1000 true (Divisor.ofFn fun v => [1, -1, 0, 0].getD v.1 0) (Divisor.ofFn fun _ => 0) = some false := by
   refine ⟨_, rfl, by decide +kernel, by decide +kernel⟩
+
+/-- Headline form on connected graphs -/
+theorem linEquiv_exact_connected (G : Graph n) (hG : G.WF) (hc : G.Connected) (fuel : Nat) (sameGraph : Bool)
+    (D1 D2 : Divisor n) (h1 : D1.total = deg D1.deg) (h2 : D2.total = deg D2.deg) (b : Bool)
+    (h : linEquiv G fuel sameGraph D1 D2 = some b) : b = true ↔ (sameGraph = true ∧ LinEq G D1.deg D2.deg) :=
+  linEquiv_exact G hG hc fuel sameGraph D1 D2 h1 h2 (cover_of_connected G hG hc _) b h
 
 end CF.C07
